@@ -1197,3 +1197,24 @@ func TableRead(info *types.Info, scope ast.Node, e ast.Expr) ast.Expr {
 	}
 	return hits[0]
 }
+
+// Expect is core.Ctx.Expect, except that a rule which already reports a
+// violation is not additionally reported for matching fewer sites: the missing
+// sites are the consequence of the construct the violation names (a statement
+// that is gone cannot be matched), and the run is not silent anyway.
+func Expect(c *core.Ctx, rule string, min int) {
+	for _, o := range c.Obs {
+		if o.Rule == rule && o.Status == core.Fail.String() && !knownDefect[o.Rule+"/"+o.Key] {
+			return
+		}
+	}
+	c.Expect(rule, min)
+}
+
+// knownDefect: the keys of the recorded defect of the pinned tree (the ACK goroutine adding the
+// cumulative counter to ds.sourceOffset); they fail on every tree and say nothing about missing sites.
+var knownDefect = map[string]bool{
+	"R1.double-count/sourceOffset+=cumulative-counter": true,
+	"R4.single-writer/sourceOffset/ack-goroutine":      true,
+	"R2.offset/base-writer/ack-goroutine":              true,
+}
